@@ -26,7 +26,7 @@ RULE = "cases = (component position, host kind, word); non-trivial = human_repr(
 ASSUMPTIONS = ["human_repr treats each component independently with a fixed unsafe set, so short words over all delimiters cover it"]
 
 HOSTS = [("h.com", "h.com"), ("é.com", "é.com"), ("127.0.0.1", "127.0.0.1"), ("::1", "[::1]")]
-POSITIONS = ["user", "password", "path", "qkey", "qval", "fragment", "all", "path_only"]
+POSITIONS = ["user", "password", "path", "qkey", "qval", "fragment", "all", "path_only", "default_port", "default_port_userinfo"]
 DELIMS = {"user": "#/:?@[]", "password": "#/:?@[]", "path": "#?", "query": "#&+;=", "fragment": ""}
 PCT = re.compile(r"((?:%[0-9A-Fa-f]{2})+)")
 
@@ -48,6 +48,11 @@ def build(pos, host, w):
         kw.update(path="/p", query=[("k", w), ("k2", w)], fragment="f")
     elif pos == "fragment":
         kw.update(path="/p", fragment=w)
+    elif pos == "default_port":
+        # an explicit port equal to the scheme default is part of the URL's identity (build() would normalise it away)
+        return U.build(scheme="http", host=host, path="/" + w, fragment=w).with_port(80)
+    elif pos == "default_port_userinfo":
+        return U.build(scheme="https", host=host, user="u", password=w, path="/p").with_port(443)
     elif pos == "all":
         kw.update(user=w, password=w, path="/" + w, query={w: w}, fragment=w, port=8080)
     return U.build(**kw)
